@@ -16,8 +16,7 @@ NA = {
     "C14": "area preservation for arbitrary regions: same float map as C13, integrated (DESIGN.md section 9)",
 }
 NOT_BUILT = "not built yet (planned, DESIGN.md section 8); nothing is claimed until its check exists"
-NA["C12"] = ("only the vertex-count / closure / option-default conjunct and the latitude range are within reach of contracts (list-length reasoning over opaque vertices); "
-             "simple, counter-clockwise, no 180-degree jumps, span < 180 and corner identity are float geometry of the projected ring. The reachable conjunct was not built, so nothing is claimed (DESIGN.md sections 8, 9)")
+
 
 PYVC_NOTE = ("Trusted: the AST->SMT encoding of the accepted Python subset (DESIGN.md 3.1; differential self-check is testing), "
              "import-time tables read from the live module, z3/cvc5, no termination proof. Python ints are fixed-width bit-vectors "
@@ -97,6 +96,19 @@ CHECKS = {
         note=PYVC_NOTE + " Loop level: ints mathematical, RES/NCHILD/CHILD uninterpreted, PS ghost prefix sum.",
     ),
 
+
+    "C12": dict(
+        engine="pyvc",
+        technique="partial claim by contract-based verification in an abstracted-float ('opaque') mode: the real cell_to_boundary, split_edges, normalize_longitudes and _get_pentagon are executed symbolically with every float an unknown value and float comparisons non-deterministic, so the list / control structure (vertex count, closure, defaults, argument frame) is verified for all cells; the geometric conjuncts are not claimed",
+        category="proof",
+        text=("IN PART (shape conjuncts). For every cell of resolutions 0..29 (face, segment, position symbolic) and closed_ring in {True, False, omitted} x segments in {omitted, None, "
+              "'auto', 1, 2, 3, 5, 7, 16}: len(cell_to_boundary) = (3 at resolution 1 else 5) * segments + (1 if closed_ring), with the default segments the integer >= 1 the code derives "
+              "from the resolution alone and closed_ring defaulting to true; with closed_ring the last vertex is the first; the options dictionary is not modified; the world cell gives []. "
+              "_get_pentagon's vertex count is proved per resolution (for an arbitrary anchor) and used as a contract. Quick tier: resolutions 0-3, 5-7, 12, 29 for the option matrix; "
+              "thorough: all. NOT decided: simple, counter-clockwise, no 180-degree jumps, span < 180, corners independent of segments (float geometry); latitude range is C02's."),
+        design_ref="DESIGN.md section 15 / C12",
+        note=PYVC_NOTE + " Float mode 'opaque': loops steered by floats are havocked and left (termination not proved); DodecahedronProjection.inverse replaced by an opaque result.",
+    ),
     "C15": dict(
         engine="ivc",
         technique="contract-based verification with a validated-numerics back end: the bodies of AuthalicProjection.forward/inverse are re-read from the AST and evaluated over second-order interval jets (mpmath.iv, outward rounding, running binary64 rounding-error bound); the real-interval contracts are decided by adaptive branch and bound; oddness by exact symbolic mirroring of the AST",
